@@ -6,8 +6,13 @@
 #[allow(dead_code)]
 pub(crate) mod clock {
     use std::time::{Duration, Instant};
-    static mut NOW_SECS: u64 = 0;
-    static mut NOW_NANOS: u32 = 0;
+    // Distinctive, non-zero initial values: Kani 0.68 deduplicated the std constant
+    // `RawVecInner::ZERO_CAP` (8 zero bytes) onto a `static mut NOW_SECS: u64 = 0`, so that
+    // after `clock::set(s, _)` every later `Vec::new()` had capacity `s` (seen in a C43
+    // harness: dealloc of a dangling pointer).  No constant has these bytes; every harness
+    // sets the clock before reading it.
+    static mut NOW_SECS: u64 = 0x5EED_C10C_5EED_C10C;
+    static mut NOW_NANOS: u32 = 0x0C10_C5ED;
 
     pub(crate) fn zero() -> Instant {
         unsafe { std::mem::zeroed() }
